@@ -228,7 +228,7 @@ func checkWndUnused(p *Prog, r *Report) {
 		r.brokenf("wnd_unused has no body")
 		return
 	}
-	recv := p.recvVar(fi)
+	recv := p.selfVar(fi)
 	if recv == nil {
 		r.brokenf("wnd_unused has no named receiver")
 		return
@@ -341,21 +341,21 @@ func checkWndUnused(p *Prog, r *Report) {
 				isTemplate = true
 			}
 		}
-		isFresh := func(n ast.Node, _ Point) bool { // a store X.wnd = wnd_unused() or = template.wnd
-			as, ok := n.(*ast.AssignStmt)
-			if !ok {
+		isFresh := func(n ast.Node, _ Point) bool { // a store X.wnd = wnd_unused() or = template.wnd (assignment or literal key)
+			if _, isStmt := n.(ast.Stmt); !isStmt {
 				return false
 			}
-			for i, l := range as.Lhs {
-				lt := p.Term(l)
-				b, ok := fieldBase(lt, fWnd)
-				if !ok || b.Key() != x.Key() || i >= len(as.Rhs) {
+			for _, st := range stores {
+				if rootFuncInfo(st.Fn) != flush || st.Base == nil || st.Base.Key() != x.Key() || st.Rhs == nil || st.Tok != token.ASSIGN && st.Tok != token.DEFINE {
 					continue
 				}
-				if call, ok := ast.Unparen(as.Rhs[i]).(*ast.CallExpr); ok && p.Callee(call) == wu {
+				if st.Node != n && !nodeWithin(p, st.Node, n) {
+					continue
+				}
+				if call, ok := ast.Unparen(st.Rhs).(*ast.CallExpr); ok && p.Callee(call) == wu {
 					return true
 				}
-				if rb, ok := fieldBase(p.Term(as.Rhs[i]), fWnd); ok && rb.Op == "var" {
+				if rb, ok := fieldBase(p.Term(st.Rhs), fWnd); ok && rb.Op == "var" {
 					for _, tv := range templates {
 						if rb.Obj == tv {
 							return true
@@ -399,6 +399,29 @@ func checkWndUnused(p *Prog, r *Report) {
 }
 
 // recvVar returns the receiver variable of a method declaration.
+// selfVar is the receiver of a method or, for a plain function, its first parameter when that is of a named
+// type of the package (or a pointer to one) — a method rewritten as a function taking the object first.
+func (p *Prog) selfVar(fi *FuncInfo) *types.Var {
+	if v := p.recvVar(fi); v != nil {
+		return v
+	}
+	if fi.Decl == nil || fi.Decl.Recv != nil || fi.Decl.Type.Params == nil || len(fi.Decl.Type.Params.List) == 0 || len(fi.Decl.Type.Params.List[0].Names) == 0 {
+		return nil
+	}
+	v, _ := p.Info.Defs[fi.Decl.Type.Params.List[0].Names[0]].(*types.Var)
+	if v == nil {
+		return nil
+	}
+	t := v.Type()
+	if pt, ok := t.(*types.Pointer); ok {
+		t = pt.Elem()
+	}
+	if n, ok := t.(*types.Named); ok && n.Obj().Pkg() == p.Types {
+		return v
+	}
+	return nil
+}
+
 func (p *Prog) recvVar(fi *FuncInfo) *types.Var {
 	if fi.Decl == nil || fi.Decl.Recv == nil || len(fi.Decl.Recv.List) != 1 || len(fi.Decl.Recv.List[0].Names) != 1 {
 		return nil
@@ -696,7 +719,7 @@ func checkCwndGrowth(p *Prog, r *Report) {
 	fCwnd := p.Field("KCP", "cwnd")
 	fa := p.FactsOf(input)
 	c := p.CFG(input)
-	recv := p.recvVar(input)
+	recv := p.selfVar(input)
 	if recv == nil {
 		r.brokenf("Input has no receiver name")
 		return
